@@ -80,6 +80,21 @@ def run(chk):
                 chk.ob("R1 initial value", "R1|registration-authdata-counter", t2 == term, where(mc, nb),
                        "AuthenticatorData::new counter = %s ; Passkey.counter = %s" % (flow.term_str(t2), flow.term_str(term)))
 
+    # ---------------- R3b: the container reports the counter it is given
+    adn = p.method(adt_ident(p, "AuthenticatorData"), "new")
+    if chk.require("R3 reported = stored", "R3|AuthenticatorData::new", adn, "AuthenticatorData", "AuthenticatorData::new not found"):
+        chk.touched(adn)
+        Tn = flow.Terms(p, adn)
+        ag = find_aggs(adn, "AuthenticatorData")
+        okc = False
+        wit = "construction not found"
+        if len(ag) == 1:
+            b3, i3, r3 = ag[0]
+            ct = N.norm(Tn.operand(r3["ops"][r3["fields"].index("counter")], b3, i3))
+            okc = ct == ("param", 2)
+            wit = "AuthenticatorData::new stores counter = %s (its own argument, unchanged: %s)" % (flow.term_str(ct)[:160], okc)
+        chk.ob("R3 reported = stored", "R3|AuthenticatorData::new|counter-stored-unchanged", okc, where(adn), wit)
+
     # ---------------- R2..R5 (get_assertion)
     ga = ceremony(p, "get_assertion")
     if not chk.require("R2 checked arithmetic", "R2|get_assertion", ga, AUTH, "Authenticator::get_assertion async body not found"):
